@@ -13,6 +13,7 @@
 From Coq Require Import List Ascii.
 From GM Require Import Base.Res Base.StrItp Model.Itp Proofs.ItpSpec Proofs.ItpCore Proofs.ItpLine Proofs.ItpText
   Proofs.ItpRound Proofs.TopologyParse Proofs.ItpExample.
+From GM Require Import Gen.ItpGen Proofs.ItpGenEq.
 Import ListNotations.
 Local Open Scope char_scope.
 
@@ -71,6 +72,13 @@ Theorem C16_stable : forall text f,
                  itp_read (itp_write f') = Ok f'' /\ abs f'' = abs f.
 Proof. exact stable. Qed.
 Print Assumptions C16_stable.
+
+(* the model is the source (DESIGN.md 4.6): Gen/ItpGen.v is re-translated from the text of ItpLine.parse_itp_line in
+   gaddlemaps/parsers/_itp_parse.py at every run (harness/pytrans_itp.py); for every line, what the source says now
+   IS the line parser the theorems of this file are about (blank / header / '#' / ';' / first ';' / final ';' / plain) *)
+Theorem C16_model_is_source_line : forall l : str, parse_itp_line_gen l = parse_itp_line l.
+Proof. exact parse_itp_line_gen_eq. Qed.
+Print Assumptions C16_model_is_source_line.
 
 (* non-vacuity: a text with a repeated [ dihedrals ], `1 2 3 ;`, a '#'-leading trailing comment, several
    trailing comments, a preprocessor line and no final newline is inside the domain and parses, with both
